@@ -151,7 +151,8 @@ CHECKS = {
             "reference for mean, unbiased standard error and regression-adjusted samples",
             "Exploration: for 1..200 generated paths (1-3 assets, identity/log representation, constant payoffs "
             "included), scalar and vector strikes (payoff dimension 1..4), notionals, discount factors, 0..3 controls "
-            "(scalar, or with one strike and one price per payoff component) "
+            "(scalar, or with one strike and one price per payoff component); scripted paths on their own time grids under "
+            "a drifting process with Asian / spot / barrier payoffs (each sample = payoff of its own path) "
             "and spot statistics on/off, the engine must consume each path exactly once, store the samples in "
             "order, report price = df x mean(notional x payoff) and error = unbiased sample std / sqrt(n) per "
             "component, and with controls the mean of Y - b*(X - price_X) with b* the sample regression coefficient "
@@ -173,7 +174,8 @@ CHECKS = {
             "processes: 2..4 workers x path counts, stored samples must be pairwise distinct (currently a listed "
             "known finding: chunks share the pre-drawn buffers). Adaptive engine (Engine.price, several passes, levels "
             "deep-copied and added) on the real coupling: seeded repeat incl. every coupling decision, and every "
-            "variate compared with the right-jump probability (recorded by a probe at the comparison) occurs once.",
+            "variate compared with the right-jump probability (recorded by a probe at the comparison) occurs once. "
+            "Multilevel engine with worker processes (default count, 2, ...) x seed / none in jump-time mode: distinct samples.",
             "The OS scheduling of workers is not controlled; the clock and every seed call are. Equal values = "
             "shared variates holds because payoffs are continuous in the variates (sigma >= 0.05)."),
     "C15": ("3/C15",
